@@ -10,7 +10,7 @@ RULE = ('Cases = request type (worker, persistent worker, context create, duplic
         'well-behaved client sends on the data connection (recorded in the same run) replayed by a scripted raw-socket client and '
         'cut at an enumerated offset with FIN or RST, or sent completely followed by a faulty control-channel handshake step '
         '(never connects, connects and closes, closes after the runtime info, vanishes while the worker runs) x optionally a '
-        'healthy client with a running worker x sequences of 1-3 faulty clients x schedule.')
+        'healthy client with a running worker x sequences of 1-3 faulty clients x server started with / without close_on_none x schedule.')
 ASSUMPTIONS = ['after each faulty client the server must be alive and serve a fresh RemoteWorker round trip and a fresh request of the faulty client\'s kind (same context) within 120 simulated s each']
 
 REQS = ['worker', 'pworker', 'ctx-create', 'ctx-delete', 'worker-in-ctx', 'ctx-create-dup']
@@ -20,6 +20,9 @@ STEPS = ['never-ctrl', 'ctrl-connect-close', 'ctrl-connect-reset', 'close-after-
 def mk_case(ctx, seq, concurrent, idx, policy=None, knobs=None, tag='', census=False, seed=None):
     return {'kind': seq[0]['req'] if seq else 'none', 'seq': seq, 'concurrent': concurrent, 'census': census,
             'policy': policy or {'kind': 'cooperative'}, 'knobs': knobs or {},
+            # server configuration: with close_on_none (the default of run_server / the command line of the ssh helpers) a client
+            # that sends a None header shuts the server down - none of the faulty clients below ever sends one
+            'close_on_none': idx % 2 == 1,
             'sched_seed': seed if seed is not None else ctx.case_seed(tag, idx)}
 
 
@@ -151,7 +154,7 @@ class Run:
 
     def root(self):
         s, c = self.sim, self.case
-        srv = lib.start_server()
+        srv = lib.start_server(close_on_none=bool(c.get('close_on_none')))
         addr = srv.addr
         ctxs = []
         conc = None
